@@ -16,4 +16,6 @@ def sszwrap(bindir):
     with core.LeanLock():  # do not swap the file under a concurrent lake build
         p = subprocess.run([exe, "-repo", core.REPO, "-out", out], stdout=subprocess.PIPE,
                            stderr=subprocess.STDOUT, text=True, timeout=300)
+    if p.returncode != 0 and os.path.exists(out):
+        os.remove(out)  # fail closed: no stale layout may satisfy the Lean build
     return p.returncode == 0, p.stdout
